@@ -25,7 +25,47 @@ func init() { register("C13", checkC13) }
 
 // c13Draw draws a specification with many tokens / modes / files (family A)
 // or a grammar whose rules return imported Go types (family B).
+// c13SameNameCase: a rule may legally be called ERROR (only token names are
+// reserved); next to @error two different symbols then carry the same name,
+// and any ordering "by name" needs a deterministic tie-break.
+func c13SameNameCase(r *rng.R) *PCase {
+	g := &gram.Grammar{}
+	names := []string{"NUM", "SEMI", "ID", "COMMA", "LP"}
+	lits := []string{"0", ";", "id", ",", "("}
+	n := r.Range(3, 5)
+	for i := 0; i < n; i++ {
+		g.Tokens = append(g.Tokens, gram.Token{Name: names[i], Lit: lits[i]})
+	}
+	tok := func(i int) gram.Term { return gram.Term{Ref: gram.Ref{Kind: gram.KTok, Idx: i}} }
+	rule := func(i int) gram.Term { return gram.Term{Ref: gram.Ref{Kind: gram.KRule, Idx: i}} }
+	errT := gram.Term{Ref: gram.Ref{Kind: gram.KErr}}
+	stmt := []gram.Prod{
+		{Terms: []gram.Term{tok(2), tok(1)}},
+		{Terms: []gram.Term{rule(2), tok(1)}},
+		{Terms: []gram.Term{errT, tok(1)}},
+	}
+	if r.Chance(1, 2) {
+		stmt[1], stmt[2] = stmt[2], stmt[1]
+	}
+	if n > 3 && r.Chance(1, 2) {
+		stmt = append(stmt, gram.Prod{Terms: []gram.Term{tok(3), rule(2), errT, tok(1)}})
+	}
+	sugar := []gram.Sugar{gram.Plus, gram.Star}[r.Intn(2)]
+	g.Rules = []gram.Rule{
+		{Name: "prog", Prods: []gram.Prod{{Terms: []gram.Term{{Ref: gram.Ref{Kind: gram.KRule, Idx: 1}, Sugar: sugar}}}}},
+		{Name: "stmt", Prods: stmt},
+		{Name: "ERROR", Prods: []gram.Prod{{Terms: []gram.Term{tok(0), tok(0)}}}},
+	}
+	pc := &PCase{G: g, Origin: "rule-named-like-the-error-terminal"}
+	pc.C = g.Desugar(false)
+	pc.prepare()
+	return pc
+}
+
 func c13Draw(d *caseDrawer, r *rng.R) *PCase {
+	if r.Chance(1, 6) {
+		return c13SameNameCase(r)
+	}
 	if r.Chance(1, 2) {
 		cc := drawC19(r)
 		cc.PCase.Origin = "many-tokens-modes-files"
